@@ -536,6 +536,11 @@ class Exec:
             leaves = []      # (list of guard expressions, yielded expression)
 
             def walk(stmts, guards):
+                if len(stmts) > 1 and isinstance(stmts[0], ast.If) and not stmts[0].orelse and len(stmts[0].body) == 1 \
+                        and isinstance(stmts[0].body[0], ast.Continue):
+                    # `if c: continue` followed by the rest  ==  the rest under `not c`
+                    walk(stmts[1:], guards + [ast.UnaryOp(op=ast.Not(), operand=stmts[0].test)])
+                    return
                 if len(stmts) == 1 and isinstance(stmts[0], ast.If):
                     st = stmts[0]
                     walk(st.body, guards + [st.test])
